@@ -353,6 +353,27 @@ func (u *Unit) timeModel(st *State, fr *Frame, in *ssa.Call, fn *ssa.Function, a
 
 // invokeModel: methods on opaque interface values.
 func (u *Unit) invokeModel(st *State, fr *Frame, in *ssa.Call, recv IfaceV, m *types.Func, args []Val) (Val, bool) {
+	sig := m.Type().(*types.Signature)
+	if recv.Opq != nil && sig.Params().Len() == 0 && sig.Results().Len() == 1 {
+		// A-CRYPTO: key values are immutable; Len() == len(Bytes()); both are
+		// functions of the key value (memoised per opaque identity)
+		key := recv.Opq.S
+		switch {
+		case m.Name() == "Len" && isIntKind(sig.Results().At(0).Type()):
+			u.Assumed["A-CRYPTO: key.Len() == len(key.Bytes()), deterministic"]++
+			return u.ifaceLen(st, key), true
+		case m.Name() == "Bytes" && isByteSlice(sig.Results().At(0).Type()):
+			u.Assumed["A-CRYPTO: key.Len() == len(key.Bytes()), deterministic"]++
+			if v, ok := st.memo["ifbytes:"+key]; ok {
+				return v, true
+			}
+			s := u.freshVal(st, sig.Results().At(0).Type(), "keybytes", false).(SliceV)
+			u.assume(Eq(s.Len, u.ifaceLen(st, key)))
+			u.assume(Implies(Gt(s.Len, IntLit(0)), Neq(s.Blk, IntLit(0))))
+			st.memo["ifbytes:"+key] = s
+			return s, true
+		}
+	}
 	switch m.Name() {
 	case "Error", "String":
 		if m.Type().(*types.Signature).Params().Len() == 0 {
@@ -369,3 +390,14 @@ func (u *Unit) invokeModel(st *State, fr *Frame, in *ssa.Call, recv IfaceV, m *t
 }
 
 var _ = fmt.Sprint
+
+func (u *Unit) ifaceLen(st *State, key string) *Term {
+	if v, ok := st.memo["iflen:"+key]; ok {
+		return v.(*Term)
+	}
+	l := u.newInt("keylen")
+	u.assume(And(Le(IntLit(0), l), Le(l, BigLit(MaxLen))))
+	l = WithBounds(l, big.NewInt(0), MaxLen)
+	st.memo["iflen:"+key] = l
+	return l
+}
